@@ -117,6 +117,12 @@ def gen_cases(tier: str, seed: int) -> List[Dict]:
             if src == "c06":
                 mixed = [c for c in pool if c.get("id", "").endswith("-mixed") and not c.get("options")]
                 always = rng.sample(mixed, min(4 if quick else 2, len(mixed)))
+            if src == "c07":
+                # ordering functions must follow sort_*, never display_*: always one case whose sort flags are the opposite of this
+                # configuration's display flags, on monomials that graded and ungraded orders rank differently
+                opp = [c for c in pool if "-mixeddeg" in c.get("id", "") and (c.get("options") or {}).get("sort_graded") != cfg["display_graded"]
+                       and (c.get("options") or {}).get("sort_reverse") != cfg["display_reverse"]]
+                always = rng.sample(opp, min(1, len(opp)))
             for c in always + rng.sample(pool, min(per, len(pool))):
                 c = dict(c)
                 opt = dict(cfg)
